@@ -10,6 +10,7 @@ META = {
     "text": "Lean theorem over every filter list and every octet string: decoding with a filter equals decoding without it "
             "minus the samples of the listed types whenever the filtered samples are framed by their declared length "
             "(by induction over the sample loop; errors included), and unconditionally when the filter lists no supported type; "
+            "since the F19 repair framing asks nothing of the sampled headers (a header the dissector rejects no longer fails the unfiltered decode: filter_undissectable) nor of extended-router lengths, only that the declared sample length is the real one and the records can be read (framing_needed); "
             "tied to sflow.SFDecode by differential correspondence and checked on the real decoder with and without the filter.",
     "ref": "DESIGN.md §6 C07 / C18",
     "note": "Trusted: Lean kernel; hand-written model; harness generator and oracle.",
